@@ -17,22 +17,21 @@ Record package := { pk_domain : string; pk_exts : list pext; pk_mods : list pmod
 
 Definition sbit := (name * Z)%type.
 
-(* bits of a target, least significant first *)
-Fixpoint read_target (sigs : list (name * Z)) (t : ptarget) : result (list sbit) :=
+(* bits of a target in the order the netlisters write them: most significant first *)
+Fixpoint read_target_msb (sigs : list (name * Z)) (t : ptarget) : result (list sbit) :=
   match t with
   | PSig s => w <- ofopt EMissing (assoc s sigs) ;;
-              if w <? 1 then Error EWidth else Ok (map (pair s) (iota (Z.to_nat w) 0 1))
+              if w <? 1 then Error EWidth else Ok (rev (map (pair s) (iota (Z.to_nat w) 0 1)))
   | PSlice s top bot =>
       w <- ofopt EMissing (assoc s sigs) ;;
-      if (0 <=? bot) && (bot <=? top) && (top <? w) then Ok (map (pair s) (iota (Z.to_nat (top - bot + 1)) bot 1))
+      if (0 <=? bot) && (bot <=? top) && (top <? w) then Ok (rev (map (pair s) (iota (Z.to_nat (top - bot + 1)) bot 1)))
       else Error EOutOfBounds
-  | PConcat parts =>
-      (fix go (ps : list ptarget) : result (list sbit) :=
-         match ps with
-         | [] => Ok []
-         | p :: ps' => hi <- read_target sigs p ;; lo <- go ps' ;; Ok (lo ++ hi)
-         end) parts
+  | PConcat parts => cat_results (map (read_target_msb sigs) parts)
   end.
+
+(* ... and least significant first, the order of Hdl21's own connectables *)
+Definition read_target (sigs : list (name * Z)) (t : ptarget) : result (list sbit) :=
+  r <- read_target_msb sigs t ;; Ok (rev r).
 
 (* ---- a package read as a design (all leaves are signals) ---- *)
 Fixpoint index_of (s : name) (l : list (name * Z)) (k : N) : option N :=
